@@ -892,10 +892,10 @@ func (e *Exec) discharge(quick bool, sem chan struct{}, keepScripts bool) []*Obl
 						res   smt.Result
 						loose bool
 					}
-					ch := make(chan tagged, 3)
+					ch := make(chan tagged, 4)
 					n := 0
 					if best.Status != "sat" {
-						for _, sv := range []string{"z3", "cvc5"} {
+						for _, sv := range []string{"z3", "cvc5", "z3-new-sat"} {
 							n++
 							go func(sv string) { ch <- tagged{smt.RunSolver(sv, script, rest), false} }(sv)
 						}
